@@ -1,6 +1,6 @@
 // contract header (assumed): std::sync::atomic integers as cells whose content is unknown at every read (no claim about
 // other threads or about earlier stores: the weakest contract, so nothing can be proved FROM a counter kept in one).
-#[derive(Copy, Clone, PartialEq, Eq)]
+#[derive(Copy, Clone, PartialEq, Eq, Structural)]
 pub enum Ordering { Relaxed, Release, Acquire, AcqRel, SeqCst }
 #[verifier::external_body] pub struct AtomicU32 { _p: () }
 #[verifier::external_body] pub struct AtomicU64 { _p: () }
